@@ -82,6 +82,11 @@ func (m *ServiceMap) ServiceForRequest(req *http.Request) (*Service, string) {
 		splitHost, _, err := net.SplitHostPort(host)
 		if err == nil {
 			host = splitHost
+			if strings.Contains(host, ":") {
+				// SplitHostPort strips the brackets of an IPv6 literal; keep
+				// them, so that "[::1]:80" and "[::1]" are the same host.
+				host = "[" + host + "]"
+			}
 		}
 	}
 
